@@ -602,3 +602,53 @@ def lower10(ctx) -> List[Ob]:
     if not out:
         out.append(unresolved("LOWER-10", cg.qualname, "return value of a bare return", ctx.where(cg), "no return-handling arm found"))
     return out
+
+
+@rule("LOWER-11", 2, "the code generator keeps no state between two transform() calls: every attribute its helpers write is re-initialised by transform()")
+def lower11(ctx) -> List[Ob]:
+    out: List[Ob] = []
+    back = ctx.prog.cls(BACK)
+    tr = back.find_method("transform")
+    if tr is None:
+        raise AnalysisError("SCFG2ASTTransformer.transform not found")
+    cfg = ctx.cfg(tr)
+    init_in_transform = {}
+    for s in A.walk_no_nested(tr.node):
+        if isinstance(s, ast.Assign):
+            for t in s.targets:
+                if isinstance(t, ast.Attribute) and isinstance(t.value, ast.Name) and t.value.id == "self":
+                    init_in_transform.setdefault(t.attr, s)
+    # attributes written by any method / nested function of the class
+    written = {}
+    for fn in ctx.prog.functions:
+        if not (fn.cls is back or (fn.parent_fn is not None and (fn.parent_fn.cls is back or (fn.parent_fn.parent_fn is not None and fn.parent_fn.parent_fn.cls is back)))):
+            continue
+        for n in A.walk_no_nested(fn.node):
+            tg = []
+            if isinstance(n, ast.Assign):
+                tg = n.targets
+            elif isinstance(n, ast.AugAssign):
+                tg = [n.target]
+            for t in tg:
+                base = t
+                while isinstance(base, ast.Subscript):
+                    base = base.value
+                if isinstance(base, ast.Attribute) and isinstance(base.value, ast.Name) and base.value.id == "self":
+                    written.setdefault(base.attr, (fn, n))
+            if isinstance(n, ast.Call) and isinstance(n.func, ast.Attribute) and n.func.attr in ("append", "pop", "add", "update", "setdefault", "extend", "clear") and isinstance(n.func.value, ast.Attribute) and isinstance(n.func.value.value, ast.Name) and n.func.value.value.id == "self":
+                written.setdefault(n.func.value.attr, (fn, n))
+    # the first use of a helper in transform
+    helper_calls = [cfg.node_of(c) for c in A.walk_no_nested(tr.node) if isinstance(c, ast.Call) and isinstance(c.func, ast.Attribute) and isinstance(c.func.value, ast.Name) and c.func.value.id == "self"]
+    for attr, (fn, n) in sorted(written.items()):
+        key = f"state self.{attr}"
+        where = ctx.where(fn, n)
+        st = init_in_transform.get(attr)
+        if st is None:
+            out.append(bad("LOWER-11", fn.qualname, key, where, f"self.{attr} is written during code generation but never re-initialised by transform(): what one call leaves there is seen by the next call on the same transformer"))
+            continue
+        sn = cfg.node_of(st)
+        if all(h is None or cfg.dominates(sn, h) or h is sn for h in helper_calls):
+            out.append(ok("LOWER-11", fn.qualname, key, where, f"self.{attr} is re-initialised at the start of transform()"))
+        else:
+            out.append(bad("LOWER-11", fn.qualname, key, where, f"self.{attr} is initialised in transform() only after code generation has started"))
+    return out
